@@ -42,6 +42,11 @@ type c10Case struct {
 	// EinvalLog: in the whole process seccomp(SET_MODE_FILTER) with the log flag is answered EINVAL (old kernel,
 	// sandbox). A load that carries the flag cannot succeed then - in particular not with another flag word.
 	EinvalLog bool `json:"einval_log,omitempty"`
+	// Unlocked: the load is called from an ordinary goroutine (not one that holds its thread) while prctl(2) is slowed
+	// down by strace (inject=prctl:delay_exit): the runtime takes the processor away during the call, and a goroutine
+	// that does not hold its thread continues on another one. Without thread-sync exactly one thread may end up with the
+	// filter, and no other thread may have been given no_new_privs.
+	Unlocked bool `json:"unlocked,omitempty"`
 	// GOARCH: build of the child ("" = amd64, 386)
 	GOARCH string `json:"goarch,omitempty"`
 	// EnosysFault: seccomp(2) fails with ENOSYS in the whole process (outer sandbox / old kernel).
@@ -76,6 +81,10 @@ func drawC10(t *rapid.T) c10Case {
 	}
 	if rapid.IntRange(0, 3).Draw(t, "abi") == 0 {
 		c.GOARCH, c.Strace = "386", false
+	}
+	if !c.Divergent && !c.EnosysFault && !c.EinvalLog && c.Uid == 0 && c.GOARCH == "" && rapid.IntRange(0, 5).Draw(t, "unlocked") == 0 {
+		c.Unlocked, c.Strace, c.NNP = true, false, true
+		c.GOMAXPROCS = []int{1, 1, 2}[rapid.IntRange(0, 2).Draw(t, "unlockedProcs")]
 	}
 	var n int
 	switch k := rapid.IntRange(0, 9).Draw(t, "nClass"); {
@@ -168,12 +177,16 @@ func checkC10(raw json.RawMessage) (ev.Result, error) {
 	if c.LogGroup {
 		pol.Groups = append(pol.Groups, spec.Group{Action: actLog, Names: []string{"getgid"}})
 	}
+	loadThread := 0
+	if c.Unlocked {
+		loadThread = -1
+	}
 	priorSynced := c.Divergent && c.PriorKind == "same-thread-tsync"
 	job := &kjob.Job{GOMAXPROCS: c.GOMAXPROCS, Uname26: c.Uname26, Steps: []kjob.Step{
 		{Op: "mkthreads", N: 2},
 		{Op: "states", States: sts},
 		fault,
-		{Op: "load", Thread: 0, Filter: &kjob.FilterSpec{Policy: pol, NNP: c.NNP, Flag: c.Flag, HostArch: true}},
+		{Op: "load", Thread: loadThread, Filter: &kjob.FilterSpec{Policy: pol, NNP: c.NNP, Flag: c.Flag, HostArch: true}},
 		{Op: "release", Probes: probes},
 		{Op: "spawn", N: c.SpawnAfter, Probes: probes},
 		{Op: "allstatus"},
@@ -183,7 +196,11 @@ func checkC10(raw json.RawMessage) (ev.Result, error) {
 	if c.DelayUs > 0 && !c.Divergent && !c.EnosysFault && !c.EinvalLog {
 		job.Steps[2] = kjob.Step{Op: "sleep", N: c.DelayUs}
 	}
-	rr, err := kchild.Run(job, kchild.RunOpts{Strace: c.Strace, Timeout: 45e9, Uid: c.Uid, GOARCH: c.GOARCH})
+	ro := kchild.RunOpts{Strace: c.Strace, Timeout: 45e9, Uid: c.Uid, GOARCH: c.GOARCH}
+	if c.Unlocked {
+		ro.Strace, ro.Inject, ro.Timeout = true, "prctl:delay_exit=200000", 90e9
+	}
+	rr, err := kchild.Run(job, ro)
 	if err != nil {
 		return ev.Result{}, ev.Inconclusivef("%v", err)
 	}
@@ -343,7 +360,28 @@ func checkC10(raw json.RawMessage) (ev.Result, error) {
 	}
 	// every other thread of the process (runtime threads) and the loader
 	as := rr.Find(6, "status")
-	if len(as) == 1 {
+	if c.Unlocked && len(ld.Status) > 0 {
+		res.Classes = append(res.Classes, "unlocked-caller-with-slow-prctl")
+		filtered, withBit := 0, 0
+		for _, s := range ld.Status {
+			if s.Seccomp == 2 {
+				filtered++
+			}
+			if s.NNP == 1 {
+				withBit++
+			}
+			if !tsync && s.NNP == 1 && s.Seccomp != 2 {
+				return res, fmt.Errorf("thread-sync NOT requested: thread %d (%s) was given no_new_privs although the filter is not on it (Seccomp=%d): another thread than the installing one was touched", s.Tid, s.Role, s.Seccomp)
+			}
+			if !tsync && s.Seccomp == 2 && s.NNP != 1 {
+				return res, fmt.Errorf("the filter was installed on thread %d, which does not carry the requested no_new_privs bit", s.Tid)
+			}
+		}
+		if !tsync && filtered != 1 {
+			return res, fmt.Errorf("thread-sync NOT requested and LoadFilter returned nil: %d threads are in filter mode, want exactly the installing one", filtered)
+		}
+	}
+	if len(as) == 1 && !c.Unlocked {
 		for _, s := range as[0].Status {
 			if s.Role == "command" && s.Idx == 0 && s.Seccomp != 2 {
 				return res, fmt.Errorf("the loading thread has Seccomp=%d after a nil result", s.Seccomp)
@@ -354,7 +392,7 @@ func checkC10(raw json.RawMessage) (ev.Result, error) {
 		}
 	}
 	lp := rr.Find(7, "probe")
-	if len(lp) == 1 && len(lp[0].Results) == 1 {
+	if len(lp) == 1 && len(lp[0].Results) == 1 && (!c.Unlocked || tsync) {
 		if d, _ := denied(lp[0].Results[0]); !d {
 			return res, fmt.Errorf("the loading thread is not subject to its own filter")
 		}
